@@ -161,7 +161,14 @@ pub(crate) fn c07_oracle(c: &BuildCase, st: &mut Stats) -> Verdict {
         }
     }
     let got = build_valid(&c.spec, c.how, "C07")?;
-    compare_image(&c.spec, &got, "C07")
+    compare_image(&c.spec, &got, "C07")?;
+    // the same image when the caller's buffer is longer than needed (the length field is size/4-1, not room/4-1)
+    let slack = 1 + (c.salt % 11) as usize;
+    if let Some(roomy) = build_with_slack(&c.spec, c.how, slack) {
+        st.label("also written into a buffer with slack");
+        compare_image(&c.spec, &roomy, "C07").map_err(|f| Failure::new(format!("{}:in-a-buffer-with-slack", f.signature), format!("written into a buffer {slack} bytes longer than needed: {}", f.detail)))?;
+    }
+    Ok(())
 }
 
 pub fn c07(tier: Tier) -> Check {
